@@ -461,17 +461,16 @@ func (mr *msgReader) read(p []byte) (int, error) {
 		}
 
 		n, err := mr.c.readFramePayload(mr.ctx, p)
-		if err != nil {
-			return n, err
-		}
 
 		mr.payloadLength -= int64(n)
 
+		// The bytes read before an error are handed to the caller as well
+		// and so must be unmasked too.
 		if !mr.c.client {
-			mr.maskKey = mask(p, mr.maskKey)
+			mr.maskKey = mask(p[:n], mr.maskKey)
 		}
 
-		return n, nil
+		return n, err
 	}
 }
 
